@@ -4,6 +4,7 @@ SHA-256(VERIF_SEED, property, run index); every choice below is drawn from one
 they are executed."""
 
 import hashlib
+import os
 import random
 
 from . import model as M
@@ -372,6 +373,8 @@ def gen_conc_knobs(rng, mp=None, tier="quick"):
          "bound": rng.choice([1, 2, 3])}
     if k["mp"]:
         k["wake"] = "random"
+    if rng.random() < float(os.environ.get("VERIF_LINE_TRACE_P", 0.1)):
+        k["line_trace"] = True   # statements of filehashstore.py are pre-emption points too
     return maybe_skin(rng, k)
 
 
@@ -685,7 +688,7 @@ def conc_obj_menu():
     return [
         _st(0, 0), _st(1, 0), _st(2, 0), _st(1, 1), _st(None, 0),
         {"op": "tag", "pid": 1, "cid": ["c", 0]}, {"op": "tag", "pid": 2, "cid": ["c", 0]},
-        {"op": "tag", "pid": 0, "cid": ["x", 0]},
+        {"op": "tag", "pid": 0, "cid": ["x", 0]}, {"op": "tag", "pid": 0, "cid": ["c", 0]},
         {"op": "delete", "pid": 0}, {"op": "delete", "pid": 1},
         {"op": "div", "c": 0, "ckalgo": "sha256", "ck": "wrong", "size": "ok"},
         {"op": "div", "c": 0, "ckalgo": "sha224", "ck": "ok", "size": "ok"},
